@@ -234,6 +234,24 @@ impl Board {
     pub fn current_position_hash(&self) -> u64 {
         self.position_info.current_position_hash()
     }
+
+    /// Everything the board keeps besides placement and turn (stacks, clocks,
+    /// repetition bookkeeping), for exact state comparison by verification monitors.
+    #[cfg(feature = "verif")]
+    pub fn verif_internals(&self) -> crate::verif::BoardInternals {
+        let mut internals = crate::verif::BoardInternals {
+            en_passant_target_stack: Vec::new(),
+            castle_rights_stack: Vec::new(),
+            halfmove_clock_stack: Vec::new(),
+            fullmove_clock: 0,
+            position_counts: Vec::new(),
+            max_seen_position_count_stack: Vec::new(),
+            current_position_hash: 0,
+        };
+        self.move_info.verif_fill_internals(&mut internals);
+        self.position_info.verif_fill_internals(&mut internals);
+        internals
+    }
 }
 
 #[cfg(test)]
